@@ -123,16 +123,34 @@ fn location_case(rep: &mut Report, input: &[u8], q: &Q, rng: &mut Rng) {
             }
         }
     }
-    // an injected I/O error converts back to the original error
+    // an injected I/O error converts back to the original error, whatever its kind;
+    // and a stream failure is never reported under another category (unless the
+    // delivered bytes had already determined the outcome, which is then the
+    // outcome of the whole input)
     if !input.is_empty() {
         let k = rng.below(input.len());
-        if let Err(e) = lexpr::from_reader_custom(FaultReader::new(input, k), o) {
+        let kind = *rng.pick(crate::mon::io::FAULT_KINDS);
+        let fr = FaultReader::with_kind(input, k, kind);
+        let errs = fr.errors_returned.clone();
+        if let Err(e) = lexpr::from_reader_custom(fr, o) {
+            rep.eval();
             if e.classify() == Category::Io {
-                rep.eval();
                 rep.count("io-kind:judged");
                 let ioe: std::io::Error = e.into();
-                if ioe.kind() != std::io::ErrorKind::ConnectionReset || !ioe.to_string().contains(MARKER) {
-                    rep.violation("io-kind", "C19:io-kind:original-error-lost".into(), format!("Io-category error converts to {:?}, not the original error", ioe), json!({"input_hex": hex(input), "offset": k}));
+                if ioe.kind() != kind || !ioe.to_string().contains(MARKER) {
+                    rep.violation("io-kind", "C19:io-kind:original-error-lost".into(), format!("Io-category error converts to {:?}, not the original error of kind {:?}", ioe, kind), json!({"input_hex": hex(input), "offset": k}));
+                }
+            } else if errs.get() > 0 {
+                let whole = lexpr::from_slice_custom(input, o).err().map(|w| (cat_name(&w), err_kind(&w)));
+                if whole != Some((cat_name(&e), err_kind(&e))) {
+                    rep.violation(
+                        "io-kind",
+                        format!("C19:io-failure-reported-as:{}", cat_name(&e)),
+                        format!("stream failing with {:?} at byte {} of {:?}: the read error was returned to the parser, which reports '{}' ({} category) although the whole input gives {:?}", kind, k, show(input), e, cat_name(&e), whole),
+                        json!({"input_hex": hex(input), "offset": k, "kind": format!("{:?}", kind)}),
+                    );
+                } else {
+                    rep.count("io-kind:failure-after-outcome-determined");
                 }
             }
         }
